@@ -74,6 +74,7 @@ def run(ctx):
     _json_keys_decided_independently(ctx, repo)
     shared.mapping_order_in_equality_rule(ctx, 'C11.r')
     shared.frozen_dataclass_eq_hash_rule(ctx, 'C11.s')
+    shared.equality_reads_verbatim_rule(ctx, 'C11.t')
     _bytes_identity_rule(ctx, repo)
     _key_string_rule(ctx, repo)
     shared.module_state_rule(ctx, 'C11.j', ['cirq-core/cirq/protocols/', 'cirq-core/cirq/value/', 'cirq-core/cirq/study/', 'cirq-core/cirq/_compat.py'], floor=3)
